@@ -1229,6 +1229,28 @@ class PendingClassDef(_PendingCompoundStmt[ClassDef]):
                 )
             )
 
+        if metaclass_expr is None and any(_keyword.arg is None for _keyword in class_keywords):
+            # `class K(**kw)`: the metaclass may come out of the expansion, which is only known at run time.
+            # The keywords are collected by a `dict(...)` call (the same duplicate / non-string key errors),
+            # after the bases, and the metaclass is popped from the result.
+            if self.node.bases:
+                bases_name = Name(id=ol_name(OL_CLASS_HEADER_TMP))
+                return_list.append(NamedExpr(target=bases_name, value=class_bases))
+                class_bases = bases_name
+            keywords_name = Name(id=ol_name(OL_CLASS_HEADER_TMP))
+            return_list.append(
+                NamedExpr(
+                    target=keywords_name,
+                    value=Call(func=utils.builtin("dict"), args=[], keywords=class_keywords),
+                )
+            )
+            metaclass_expr = Call(
+                func=Attribute(value=keywords_name, attr="pop", ctx=Load()),
+                args=[Constant(value="metaclass"), utils.builtin("type")],
+                keywords=[],
+            )
+            class_keywords = [keyword(arg=None, value=keywords_name)]
+
         if metaclass_expr is None:
             metaclass_expr = utils.builtin("type")
 
